@@ -15,7 +15,7 @@ const (
 
 type Std struct {
 	W                           WorldSpec
-	Alice, Carol, Bob, Quinn    *ActorDir
+	Alice, Carol, Bob, Quinn, Quent *ActorDir // Quent: a second actor whose boxes differ from Quinn's only in the query string
 	Dave, Erin                  string // remote actors on r.example
 	Note1, Note2                string // notes owned by a.example
 	Col1, OCol1                 string // Collection / OrderedCollection owned by a.example
@@ -50,6 +50,7 @@ func newStd(o StdOpt) *Std {
 	s := &Std{}
 	s.Alice, s.Carol, s.Bob = actorDirS(o.Scheme, hostA, "alice"), actorDirS(o.Scheme, hostA, "carol"), actorDir(hostB, "bob")
 	s.Quinn = actorDirS(o.Scheme, hostA, "quinn")
+	s.Quent = actorDirS(o.Scheme, hostA, "quentin")
 	scA := "https"
 	if o.Scheme != "" {
 		scA = o.Scheme
@@ -62,7 +63,7 @@ func newStd(o StdOpt) *Std {
 	s.Follow1 = scA + "://" + hostA + "/f/1"
 	actors := []string{"alice", "carol"}
 	if o.QueryActor {
-		actors = append(actors, "quinn", "qroot")
+		actors = append(actors, "quinn", "qroot", "quentin")
 	}
 	a := ServerSpec{Host: hostA, Scheme: o.Scheme, MintScheme: o.MintScheme, Social: o.Social, Federating: o.Federating, Actors: actors,
 		OnFollow: o.OnFollow, DeliverDepth: o.DeliverDepth, ForwardDepth: o.ForwardDepth, Transport: o.Transport}
